@@ -263,6 +263,11 @@ func catalogue() []geom.Geom {
 		geom.MultiLineString{{{X: 0, Y: 0}, {X: 100, Y: 0}}, {{X: 200, Y: 0}, {X: 300, Y: 0}, {X: 300, Y: 100}}, {{X: 0, Y: 200}, {X: 100, Y: 210}}},
 		geom.MultiLineString{{{X: 0, Y: 0}, {X: 100, Y: 0}}},
 		pAxis, pGen, pOpen, pOpenMinLast,
+		// distinct members with one and the same bounding box (the two diagonals of
+		// a rectangle, a line and its reverse, the rectangle and its corner points)
+		geom.GeometryCollection{geom.LineString{{X: 0, Y: 0}, {X: 400, Y: 200}}, geom.LineString{{X: 0, Y: 200}, {X: 400, Y: 0}}, geom.LineString{{X: 400, Y: 200}, {X: 0, Y: 0}},
+			geom.Polygon{{{X: 0, Y: 0}, {X: 400, Y: 0}, {X: 400, Y: 200}, {X: 0, Y: 200}, {X: 0, Y: 0}}}, geom.MultiPoint{{X: 0, Y: 0}, {X: 400, Y: 0}, {X: 400, Y: 200}, {X: 0, Y: 200}}},
+		geom.MultiLineString{{{X: 0, Y: 0}, {X: 400, Y: 200}}, {{X: 0, Y: 200}, {X: 400, Y: 0}}, {{X: 400, Y: 200}, {X: 0, Y: 0}}},
 		// the same member twice (identical members need not be apart)
 		geom.MultiLineString{{{X: 0, Y: 0}, {X: 100, Y: 0}}, {{X: 0, Y: 0}, {X: 100, Y: 0}}, {{X: 200, Y: 0}, {X: 300, Y: 0}, {X: 300, Y: 100}}},
 		geom.MultiLineString{{{X: 0, Y: 0}, {X: 100, Y: 0}}, {{X: 0, Y: 0}, {X: 100, Y: 0}}},
@@ -553,7 +558,7 @@ func main() {
 		return
 	}
 	rep = report.New("C15", tier, "model_checking")
-	rep.Rule = "E1: 29 base geometries of all eight types (axis-aligned and general-position rings, closed and unclosed, a ring visiting one vertex twice, sliver rings thinner than the tolerance, multi-geometries of 33..64 members, multi-geometries holding the same member twice, nested collections, empty geometries) whose members are >= 90 apart, tol in {1e-3, 0.1}, and the same geometries shifted by (2e7,-3e7) with tol 1e-9 (below the float spacing there); for each every derived h: identity; all coordinates perturbed by +-tol/2 in 6 sign patterns (expected true); every permutation of members combined with perturbation (true); every start rotation of closed rings (true); every single coordinate displaced by 2*tol, incl. the closing vertex of a closed ring on its own (false); every member deleted / duplicated at every position (false); every line / line member reversed (false); change of type with identical vertices (false); and, for containers, every such derivation applied to every member with the other members unchanged (nested to depth 2: rings permuted inside a multi-polygon member, members of a nested collection, ...). Every pair is evaluated in both directions (symmetry), and again twice with both operands cut from flat vertex buffers (same answers, buffers not written). Non-trivial = every derivation other than identity."
+	rep.Rule = "E1: 31 base geometries of all eight types (axis-aligned and general-position rings, closed and unclosed, a ring visiting one vertex twice, sliver rings thinner than the tolerance, multi-geometries of 33..64 members, multi-geometries holding the same member twice, distinct members sharing one bounding box, nested collections, empty geometries) whose members are >= 90 apart, tol in {1e-3, 0.1}, and the same geometries shifted by (2e7,-3e7) with tol 1e-9 (below the float spacing there); for each every derived h: identity; all coordinates perturbed by +-tol/2 in 6 sign patterns (expected true); every permutation of members combined with perturbation (true); every start rotation of closed rings (true); every single coordinate displaced by 2*tol, incl. the closing vertex of a closed ring on its own (false); every member deleted / duplicated at every position (false); every line / line member reversed (false); change of type with identical vertices (false); and, for containers, every such derivation applied to every member with the other members unchanged (nested to depth 2: rings permuted inside a multi-polygon member, members of a nested collection, ...). Every pair is evaluated in both directions (symmetry), and again twice with both operands cut from flat vertex buffers (same answers, buffers not written). Non-trivial = every derivation other than identity."
 	cat := catalogue()
 	if tier == "thorough" {
 		cat = append(cat, generated()...)
